@@ -4,6 +4,7 @@ package props
 
 import (
 	"fmt"
+	"net"
 	"os"
 	"runtime"
 	"strings"
@@ -39,6 +40,10 @@ type c10Case struct {
 	HB       bool       `json:"hb"`       // heartbeat timer enabled
 	Release2 bool       `json:"release2"` // the Association Release Request is sent twice back to back
 	DelayMs  int        `json:"delay_ms"` // service delay of every datapath command
+	// Churn (with Stop only): this many senders keep opening new sockets and sending a first datagram (an Association
+	// Setup Request) from each, from a few ms before Stop() is called until it has returned: peers that are just
+	// being accepted while the agent stops
+	Churn int `json:"churn,omitempty"`
 }
 
 func genC10(t *rapid.T) c10Case {
@@ -66,6 +71,9 @@ func genC10(t *rapid.T) c10Case {
 		}
 		c.Assocs = append(c.Assocs, a)
 	}
+	if c.Stop {
+		c.Churn = rapid.SampledFrom([]int{0, 0, 1, 2}).Draw(t, "churn")
+	}
 	return c
 }
 
@@ -85,7 +93,7 @@ func dumpGoroutines() string {
 	return strings.Join(keep, "\n\n")
 }
 
-func runC10(c c10Case, ev *Ev) error {
+func runC10(c c10Case, ev *Ev) (err error) {
 	r, err := newRig(RigOpts{Mut: func(conf *pfcpiface.Conf) {
 		conf.ReadTimeout = 1
 		if c.HB {
@@ -103,6 +111,27 @@ func runC10(c c10Case, ev *Ev) error {
 		return fmt.Errorf("INFRA: %v", err)
 	}
 	defer run.Close()
+	defer func() {
+		// With heartbeats on (40 ms interval, 30 ms response timeout, one retry) a peer that answers is given up
+		// only if two answers in a row arrive late. The harness answers at once, but on a busy machine its answer
+		// can be late; the agent then retransmits the request, which the peer sees as a repeated sequence number.
+		// A verdict reached although a healthy peer saw such a retransmission says nothing about the agent.
+		if err != nil && c.HB && !strings.HasPrefix(err.Error(), "INFRA:") {
+			for i, a := range c.Assocs {
+				if a.Trigger == "hbfail" || i >= len(run.Peers) {
+					continue
+				}
+				seen := map[uint32]bool{}
+				for _, q := range run.Peers[i].P.HBSeen() {
+					if seen[q.Seq] {
+						err = fmt.Errorf("DISCARD: heartbeat answer of a healthy peer was late (the agent retransmitted its request); the verdict would have been: %v", err)
+						return
+					}
+					seen[q.Seq] = true
+				}
+			}
+		}
+	}()
 	sessOf := map[int][]int{}
 	idx := 0
 	for i, a := range c.Assocs {
@@ -230,9 +259,47 @@ func runC10(c c10Case, ev *Ev) error {
 	stopped := false
 	stopOK := true
 	if c.Stop {
+		churnDone := make(chan struct{})
+		var cwg sync.WaitGroup
+		for k := 0; k < c.Churn; k++ {
+			k := k
+			cwg.Add(1)
+			go func() {
+				defer cwg.Done()
+				time.Sleep(time.Until(stopAt.Add(-4 * time.Millisecond)))
+				ra, err := net.ResolveUDPAddr("udp4", r.A.PFCPAddr())
+				if err != nil {
+					return
+				}
+				msg, _ := model.AssocSetupTS(0x7700, fmt.Sprintf("172.31.9.%d", k+1), 0).Marshal()
+				var socks []*net.UDPConn
+				defer func() {
+					for _, c := range socks {
+						c.Close()
+					}
+				}()
+				for n := 0; n < 400; n++ {
+					select {
+					case <-churnDone:
+						return
+					default:
+					}
+					la := &net.UDPAddr{IP: net.IPv4(127, 0, byte(run.PeerBase), byte(200+k))}
+					if s, err := net.ListenUDP("udp4", la); err == nil {
+						socks = append(socks, s)
+						_, _ = s.WriteToUDP(msg, ra)
+					}
+					if k == 0 {
+						time.Sleep(300 * time.Microsecond)
+					}
+				}
+			}()
+		}
 		time.Sleep(time.Until(stopAt))
 		stopOK = r.A.StopWithin(15 * time.Second)
 		stopped = true
+		close(churnDone)
+		cwg.Wait()
 	}
 	time.Sleep(time.Until(T.Add(450 * time.Millisecond)))
 	close(stopKA)
@@ -347,6 +414,9 @@ func runC10(c c10Case, ev *Ev) error {
 		}
 	}
 	ev.Label(fmt.Sprintf("stop=%v/assocs=%d/triggers=%d", c.Stop, len(c.Assocs), nTrig))
+	if c.Churn > 0 {
+		ev.Label("stop/new-peers-arriving")
+	}
 	ev.Case(c, nTrig >= 2 || (c.Stop && len(c.Assocs) >= 1), len(c.Assocs))
 	return nil
 }
@@ -356,7 +426,7 @@ func TestC10(t *testing.T) {
 		_ = 0
 	}
 	ev := newEv("C10")
-	ev.Rule = "one fresh agent per case (read_timeout 1 s, optionally heartbeats 40 ms / resp_timeout 30 ms / 1 retry) with 0-4 associations of 0-3 sessions; every association gets a trigger {none, Association Release (optionally sent twice), silence past the read timeout, the peer's socket closing right after a request so that the agent's answer is refused, unanswered heartbeats} aimed at one instant with 0-30 ms jitter, optionally with a session request in flight, and optionally Stop() at that instant; run under the race detector; non-trivial = >= 2 triggers, or Stop() with >= 1 live association; distinct by case"
+	ev.Rule = "one fresh agent per case (read_timeout 1 s, optionally heartbeats 40 ms / resp_timeout 30 ms / 1 retry) with 0-4 associations of 0-3 sessions; every association gets a trigger {none, Association Release (optionally sent twice), silence past the read timeout, the peer's socket closing right after a request so that the agent's answer is refused, unanswered heartbeats} aimed at one instant with 0-30 ms jitter, optionally with a session request in flight, and optionally Stop() at that instant, optionally while one or two senders keep introducing new peers (a first datagram from a new socket each); run under the race detector; non-trivial = >= 2 triggers, or Stop() with >= 1 live association; distinct by case"
 	ev.Assume = []string{"the harness does not own the Go scheduler: coincidences are aimed at with generated jitter and many repetitions, windows narrower than the wake-up jitter can be missed",
 		"Stop() must return within 15 s"}
 	runProp(t, ev, "teardown", true, genC10, runC10)
